@@ -430,6 +430,17 @@ func c20Monitor(args []string) int {
 	rep := NewReport("c20-monitor")
 	dir, _ := ioutil.TempDir("", "verifcache")
 	defer os.RemoveAll(dir)
+	// another book is built and cached first in this process: every cache written below is then not the first
+	// one this process writes (whatever the save path keeps between two saves must not leak into the next file)
+	{
+		pg := genBookGames(rng, 2+rng.Intn(4))
+		ioutil.WriteFile(filepath.Join(dir, "prelude.txt"), []byte(renderSan(pg)), 0644)
+		if pb, err, hung := buildBook(dir, "prelude.txt", openingbook.San, true); hung || err != nil {
+			rep.Violate("cache-build-fails", map[string]interface{}{"collection": "prelude"}, fmt.Sprint(err, hung))
+		} else if d := diffSnap(expectedBook(pg), snapshotOf(pb)); d != "" {
+			rep.Violate("cache-build-differs-from-source", map[string]interface{}{"collection": "prelude"}, d)
+		}
+	}
 	for c := 0; c < n; c++ {
 		games := genBookGames(rng, 2+rng.Intn(6))
 		src := filepath.Join(dir, "book.txt")
